@@ -9,7 +9,7 @@ failed type assertions and panicking `String()` methods as `Except.error`, and t
 `Process`. `calls` records the Stringers asked for their text (the observation channel of C06).
 -/
 namespace Rules
-open Rules.P (Tree Lit Kind)
+open Rules.P (Tree Lit Kind INT DOUBLE STRING)
 
 inductive Panic where
   | notAMap          -- `item.(map[string]interface{})` on a non-nil non-map value
@@ -79,9 +79,9 @@ def getStringLit (t : String) : Bytes :=
   let b := bytesOf t
   if b.length > 2 then (b.drop 1).dropLast else []
 
-def INT : Kind := 26
-def DOUBLE : Kind := 25
-def STRING : Kind := 24
+-- token kinds of the three list element types (shared with the grammar model)
+
+
 
 /-- `VisitSubListOfInts` -/
 def visitSubInts (s : VState) : List String → VM VState
